@@ -38,15 +38,17 @@
   `<recfn>`: id | sq | aff | konst | lift.<tape> | half | alt | scale  (the last two use the
   element's row-major position and exist for the `with_index` variants only).
 
-  Answers.  A container: `shape=<shape> const=<0|1> v=<numbers> scalar=ok ## idx=<positions>`
+  Answers.  A container: `shape=<shape> const=<0|1> v=<numbers> scalar=ok idx=<positions>`
   (`scalar=` is the harness's own comparison with the same computation on scalar `Record`s).
   `derivs`: `d=<per output element, per input container: the derivatives> scalar=ok` or `none`.
   A panic: `panic(<kind>)`.  `map`/`mapmut`/`fromiter`: `err(<what>)` for an `Err`.
 
-  Before `##`: what C06 speaks about, computed from the *specification* (scalar records,
+  `derivs` also reports `len=` (the number of entries of the output's tape: the length of every
+  derivative vector).  Everything before `##` is what C06 (and C15's container part) speaks about —
+  values, constness, tape positions, tape length, derivatives — computed from the *specification* (scalar records,
   Spec/RecordContainer.lean); the code-shaped container model's answer is compared with it on
   every line (`MODEL-SPEC-DISAGREE` is a machinery error: the theorems of Props/C06 say they
-  coincide).  After `##`: the model's tape positions.
+  coincide).  After `##`: `layout` only.
 -/
 import Driver.Prog
 import EasyMl.Spec.RecordContainer
@@ -194,7 +196,7 @@ def showAux (c : Cont R) : String := s!"idx={showNats c.indexes}"
 
 /-- the answer for a container: observable part from the specification's records -/
 def answer (c : Cont R) (recs : List (Rec R)) (ok : Bool := true) (histories : Bool := true) : String :=
-  flag (ok && agree c recs histories) (showObs c.shape recs ++ " scalar=ok") ++ " ## " ++ showAux c
+  flag (ok && agree c recs histories) (showObs c.shape recs ++ " scalar=ok " ++ showAux c)
 
 structure Operand (R : Type) where
   name : String
@@ -269,6 +271,34 @@ def recFn (name : String) : Option (Nat → Rec R → World R → Rec R × World
   | ["alt"] => some fun k r w => if k % 2 == 0 then (r, w) else (Rec.constant r.number, w)
   | ["scale"] => some fun k r w => r.mulNum ((k + 1 : Nat) : R) w
   | _ => none
+
+/-- A named function together with what the caller does before the call: `cap.<t>` creates a
+    variable on tape `t` (on the model's and on the specification's tapes) which the closure
+    captures and multiplies its argument with. -/
+def recFnS (s : CState R) (name : String) :
+    Option (CState R × (Nat → Rec R → World R → Rec R × World R)) :=
+  match name.splitOn "." with
+  | ["cap", t] => t.toNat?.map fun t =>
+      let (cap, w1) := Rec.mkVar three t s.w
+      let (_, sw1) := Rec.mkVar three t s.sw
+      ({ s with w := w1, sw := sw1 },
+       fun _ r w =>
+        match r.mul cap w with
+        | .ok x => x
+        | .panic _ => (r, w))
+  | _ => (recFn name).map fun f => (s, f)
+
+/-- `fn=boom.<k>`: the closure panics at its `k`-th call (counted from 0) -/
+def boomOf (rest : List String) : Option Nat :=
+  match ((optArg "fn" rest).getD "").splitOn "." with
+  | ["boom", k] => k.toNat?
+  | _ => none
+
+/-- the function a `boom` closure computes until it panics -/
+def sqFn : Nat → Rec R → World R → Rec R × World R := fun _ r w =>
+  match r.mul r w with
+  | .ok x => x
+  | .panic _ => (r, w)
 
 /-- only the `with_index` variants hand the element's position to the function -/
 def withIndex (rest : List String) (f : Nat → Rec R → World R → Rec R × World R) :
@@ -432,6 +462,48 @@ def stepMapMut (s : CState R) (o : Operand R)
       (bind s' o.name e',
        s!"err(inconsistent first={showHist first} later={showHist later}) " ++ answerEntry e')
 
+/-- `map` / `map_mut` with a closure that panics at element `k` -/
+def stepMapBoom (s : CState R) (mutate : Bool) (o : Operand R) (k : Nat) : CState R × String :=
+  let c := o.cont
+  let (srecs', sw') := Cont.mapRecsIdx sqFn 0 (o.recs.take k) s.sw
+  if !mutate then
+    ({ s with w := c.mapPanicAt sqFn k s.w, sw := sw' }, "panic(explicit)")
+  else
+    let (c', w') := c.mapMutPanicAt sqFn k s.w
+    let s := { s with w := w', sw := sw' }
+    -- an owned operand is handed over by value: the harness keeps its own copy untouched;
+    -- through a view the elements processed so far have been overwritten
+    if o.isOwn then (s, "panic(explicit)")
+    else
+      let (s', _) := storeAssigned s o c' (srecs' ++ o.recs.drop k)
+      ({ s' with sw := sw' }, "panic(explicit)")
+
+/-- `unary` / `unary_assign` with `fx` panicking at element `k` -/
+def stepUnaryBoom (s : CState R) (o : Operand R) (k : Nat) : CState R × String :=
+  match unaryFn (R := R) "cube" with
+  | none => (s, "bad-op")
+  | some (f, df) =>
+    let (_, sw') := Cont.mapRecs (fun r => r.unary f df) (o.recs.take k) s.sw
+    ({ s with w := o.cont.unaryPanicAt f df k s.w, sw := sw' }, "panic(explicit)")
+
+/-- `binary` and its assigning forms with `fxy` panicking at pair `k` -/
+def stepBinaryBoom (s : CState R) (a b : Operand R) (k : Nat) (right : Bool := false) :
+    CState R × String :=
+  match binaryFn (R := R) "psq" with
+  | none => (s, "bad-op")
+  | some (f, dfx, dfy) =>
+    let (ca, cb) := (a.cont, b.cont)
+    let sw' :=
+      if ca.shape != cb.shape then s.sw
+      else match zipRecs (fun x y => x.binary y f dfx dfy) (a.recs.take k) (b.recs.take k) s.sw with
+        | .ok (_, sw') => sw'
+        | .panic _ => s.sw
+    let w' :=
+      if right then
+        cb.binaryPanicAt ca (fun y x => f x y) (fun y x => dfy x y) (fun y x => dfx x y) k s.w
+      else ca.binaryPanicAt cb f dfx dfy k s.w
+    ({ s with w := w', sw := sw' }, "panic(explicit)")
+
 def orderRecs (order : String) (shape : Shape String) (recs : List (Rec R)) : List (Rec R) :=
   match order with
   | "cm" => columnMajor shape recs
@@ -451,7 +523,7 @@ def stepFromIter (s : CState R) (name : String) (o : Operand R) (rest : List Str
   | none => (s, "bad-op")
   | some shape =>
     let order := (optArg "order" rest).getD "rm"
-    let f0 := ((optArg "fn" rest).bind (recFn (R := R))).getD fun _ r w => (r, w)
+    let (s, f0) := (((optArg "fn" rest).bind (recFnS s))).getD (s, fun _ r w => (r, w))
     -- `with_index`, `.into()`, `from_with_index`: the element's position is handed to the function
     let indexed := ["with_index", "into", "from_with_index"].contains ((optArg "via" rest).getD "plain")
     let f : Nat → Rec R → World R → Rec R × World R := if indexed then f0 else fun _ => f0 0
@@ -508,14 +580,7 @@ def stepFromIters (s : CState R) (names : List String) (o : Operand R) (rest : L
       | [r1, r2] =>
         let (s, a1) := one s n1 r1 s1
         let (s, a2) := one s n2 r2 s2
-        -- one answer line: both results, the auxiliary parts joined
-        let split (a : String) : String × String :=
-          match a.splitOn " ## " with
-          | [o, x] => (o, x)
-          | _ => (a, "")
-        let (o1, x1) := split a1
-        let (o2, x2) := split a2
-        (s, s!"{o1} | {o2} ## {x1} | {x2}")
+        (s, s!"{a1} | {a2}")
       | _ => (s, "bad-op")
     | _ => (s, "bad-op")
   | _, _ => (s, "bad-op")
@@ -565,7 +630,8 @@ def stepDerivs (s : CState R) (out : Operand R) (wrt : List (Operand R)) (via : 
       x.length == y.length && (x.zip y).all fun (p, q) => beqList p q
   match spec, model with
   | .ok none, .ok none => "none"
-  | .ok (some a), .ok (some b) => flag (same a b) s!"d={showDerivs a} scalar=ok"
+  | .ok (some a), .ok (some b) =>
+    flag (same a b) s!"len={tapeLen s.w c.history} d={showDerivs a} scalar=ok"
   | .panic k, .panic k' => flag (k == k') s!"panic({k})"
   | .panic k, _ => s!"panic({k}) MODEL-SPEC-DISAGREE"
   | _, _ => "MODEL-SPEC-DISAGREE"
@@ -586,7 +652,7 @@ def stepElem (s : CState R) (name : String) (o : Operand R) (idx : List Nat) (vi
     let ok := r.number == sr.number && r.index == sr.index && histEq r.history sr.history
     let z := Cont.ofRecord r
     let e : Entry R := { isMatrix := false, cont := z, recs := [sr] }
-    (bind s name e, flag ok (showRec sr ++ " scalar=ok") ++ s!" ## idx={r.index}")
+    (bind s name e, flag ok (showRec sr ++ s!" scalar=ok idx={r.index}"))
   | _, _ => (s, "MODEL-SPEC-DISAGREE")
 
 /-- `scalar`: 0-dimensional tensor → record → 0-dimensional tensor -/
@@ -611,8 +677,32 @@ def stepLayout (o : Operand R) : String :=
   if o.entry.isMatrix then "ok ## layout=row_major"
   else s!"ok ## layout=linear:{",".intercalate (o.entry.cont.shape.map (·.1))}"
 
-def stepC (s : CState R) (toks : List String) : CState R × String :=
+/-- a `boom` closure that is never called often enough to panic computes `cube` / `psq` -/
+def unboom (fn : String) (toks : List String) : List String :=
+  toks.map fun t => if t.startsWith "fn=boom." then "fn=" ++ fn else t
+
+def stepC (s : CState R) (toks0 : List String) : CState R × String :=
   let get (tok : String) := resolve s tok
+  -- panicking closures first
+  let boomed : Option (CState R × String) :=
+    match boomOf toks0, toks0 with
+    | some k, "unary" :: _ :: a :: _ | some k, "uassign" :: a :: _ =>
+      (get a).bind fun o => if k < o.offsets.length then some (stepUnaryBoom s o k) else none
+    | some k, "binary" :: _ :: a :: b :: _ | some k, "lassign" :: a :: b :: _ =>
+      match get a, get b with
+      | some a, some b => if k < min a.offsets.length b.offsets.length then some (stepBinaryBoom s a b k) else none
+      | _, _ => none
+    | some k, "rassign" :: a :: b :: _ =>
+      match get a, get b with
+      | some a, some b => if k < min a.offsets.length b.offsets.length then some (stepBinaryBoom s a b k true) else none
+      | _, _ => none
+    | _, _ => none
+  if let some r := boomed then r else
+  let toks :=
+    match toks0 with
+    | "unary" :: _ | "uassign" :: _ => unboom "cube" toks0
+    | "binary" :: _ | "lassign" :: _ | "rassign" :: _ => unboom "psq" toks0
+    | _ => toks0
   match toks with
   | "vars" :: name :: kind :: shape :: vals :: rest => stepCreate s true name kind shape vals rest
   | "consts" :: name :: kind :: shape :: vals :: rest => stepCreate s false name kind shape vals rest
@@ -657,15 +747,23 @@ def stepC (s : CState R) (toks : List String) : CState R × String :=
     | _, _, none => (s, "bad-op")
     | _, _, _ => (s, "bad-ref")
   | "map" :: name :: a :: rest =>
-    match get a, (optArg "fn" rest).bind (recFn (R := R)) with
-    | some o, some f => stepMap s name o (withIndex rest f)
+    match get a, boomOf rest with
     | none, _ => (s, "bad-ref")
-    | _, none => (s, "bad-op")
+    | some o, some k =>
+      if k < o.offsets.length then stepMapBoom s false o k else stepMap s name o sqFn
+    | some o, none =>
+      match (optArg "fn" rest).bind (recFnS s) with
+      | some (s1, f) => stepMap s1 name o (withIndex rest f)
+      | none => (s, "bad-op")
   | "mapmut" :: a :: rest =>
-    match get a, (optArg "fn" rest).bind (recFn (R := R)) with
-    | some o, some f => stepMapMut s o (withIndex rest f)
+    match get a, boomOf rest with
     | none, _ => (s, "bad-ref")
-    | _, none => (s, "bad-op")
+    | some o, some k =>
+      if k < o.offsets.length then stepMapBoom s true o k else stepMapMut s o sqFn
+    | some o, none =>
+      match (optArg "fn" rest).bind (recFnS s) with
+      | some (s1, f) => stepMapMut s1 o (withIndex rest f)
+      | none => (s, "bad-op")
   | "fromiter" :: name :: a :: rest =>
     match get a with
     | some o => stepFromIter s name o rest
@@ -705,6 +803,7 @@ end
 /-- is the piece a decimal literal such as `-2.5` -/
 def isDecimal (p : String) : Bool :=
   let q := if p.startsWith "-" then (p.drop 1).toString else p
+  if q == "inf" || q == "NaN" then true else
   match q.splitOn "." with
   | [a, b] => a.length > 0 && b.length > 0 && a.all Char.isDigit && b.all Char.isDigit
   | _ => false
